@@ -352,6 +352,28 @@ class Normalizer(ast.NodeTransformer):
                 return ast.copy_location(ast.Constant(value=same if isinstance(node.ops[0], ast.Is) else not same), node)
         return node
 
+    def visit_BoolOp(self, node):
+        self.generic_visit(node)
+        # `True and X` -> X ; `False and X` -> False ; `False or X` -> X ; `True or X` -> True  (leading constants only:
+        # what follows a deciding constant is never evaluated, what follows a neutral one is the value)
+        vals = list(node.values)
+        is_and = isinstance(node.op, ast.And)
+        changed = False
+        while len(vals) > 1 and isinstance(vals[0], ast.Constant) and isinstance(vals[0].value, bool):
+            if vals[0].value is is_and:
+                vals.pop(0)             # neutral element
+                changed = True
+            else:
+                vals = [vals[0]]        # decides
+                changed = True
+        if not changed:
+            return node
+        self.count += 1
+        if len(vals) == 1:
+            return vals[0]
+        node.values = vals
+        return node
+
     def visit_IfExp(self, node):
         self.generic_visit(node)
         if isinstance(node.test, ast.Constant):
@@ -428,6 +450,13 @@ class Normalizer(ast.NodeTransformer):
         if r_ is not None:
             return self.visit(r_)
         self.generic_visit(node)
+        # 'a.b'.split('.') on constants (a table of dotted keys unrolled by N1)
+        if isinstance(node.func, ast.Attribute) and node.func.attr == 'split' and isinstance(node.func.value, ast.Constant) \
+                and isinstance(node.func.value.value, str) and len(node.args) == 1 and not node.keywords \
+                and isinstance(node.args[0], ast.Constant) and isinstance(node.args[0].value, str) and node.args[0].value:
+            parts = node.func.value.value.split(node.args[0].value)
+            self.count += 1
+            return ast.copy_location(ast.Tuple(elts=[ast.Constant(value=x) for x in parts], ctx=ast.Load()), node)
         if isinstance(node.func, ast.Name) and node.func.id == 'getattr' and len(node.args) == 2 \
                 and not node.keywords and isinstance(node.args[1], ast.Constant) \
                 and isinstance(node.args[1].value, str) and node.args[1].value.isidentifier():
@@ -514,7 +543,8 @@ class _CopyProp:
             while i < len(blk):
                 st = blk[i]
                 if isinstance(st, ast.Assign) and len(st.targets) == 1 and isinstance(st.targets[0], ast.Name) \
-                        and _alias_rhs(st.value) and not isinstance(st.value, ast.Constant):
+                        and _alias_rhs(st.value) and (not isinstance(st.value, ast.Constant) or
+                                                       '__u' in st.targets[0].id):      # element of an unrolled table
                     x = st.targets[0].id
                     if stores.get(x) == 1 and x not in params and self._try(func, blk, i, x, st.value, stores, params):
                         del blk[i]
@@ -872,6 +902,11 @@ def normalize(tree: ast.Module, inline: bool = True) -> ast.Module:
             if cp.count == before:
                 break
     n.count += cp.count
+    if cp.count:
+        # constants of unrolled tables have reached their uses: fold the tests they decide
+        n3 = Normalizer()
+        tree = n3.visit(tree)
+        n.count += n3.count
     ast.fix_missing_locations(tree)
     tree._malsa_rewrites = n.count
     return tree
